@@ -42,12 +42,13 @@ def parse_template(tpl):
     buf = []
     while i < len(lines):
         l = lines[i]
-        if l.startswith('//@@fn'):
+        if l.startswith('//@@fn') or l.startswith('//@@frag'):
             if buf:
                 out.append(('text', '\n'.join(buf)))
                 buf = []
             f = Fn()
-            for tok in shlex.split(l[len('//@@fn'):]):
+            f.opts['kind'] = 'frag' if l.startswith('//@@frag') else 'fn'
+            for tok in shlex.split(l.split(None, 1)[1] if len(l.split(None, 1)) > 1 else ''):
                 k, _, v = tok.partition('=')
                 f.opts[k] = v
             cur = None
@@ -140,9 +141,11 @@ def stmt_end_line(lines, idx):
 
 def build_fn(f, sources, fnmeta):
     o = f.opts
+    if o.get('kind') == 'frag':
+        return build_frag(f, sources, fnmeta)
     path = o['file']
     src = sources(path, o.get('src'))
-    text, s, e = X.extract_fn(src, o['name'], o.get('scope'), int(o.get('nth', '1')))
+    text, s, e = X.extract_fn(src, o['name'], o.get('scope'), int(o['nth']) if 'nth' in o else None)
     stripped = X.strip(text)
     if o.get('src') == 'expanded':
         stripped = X.normalize_expanded(stripped)
@@ -202,6 +205,41 @@ def build_fn(f, sources, fnmeta):
     return full, meta
 
 
+def build_frag(f, sources, fnmeta):
+    """A contiguous statement of a function that is otherwise out of reach, wrapped into a fn:
+    //@@frag file= [scope=] fn=<enclosing fn> from=/regex/ name=<new fn> params="a: T" ret="T" result="expr" props=..
+    The fragment is the statement that starts on the first line matching `from` (to its terminating ';')."""
+    o = f.opts
+    src = sources(o['file'], o.get('src'))
+    text, s, e = X.extract_fn(src, o['fn'], o.get('scope'), int(o['nth']) if 'nth' in o else None)
+    stripped = X.strip(text)
+    lines = stripped.split('\n')
+    rx = o['from'].strip('/')
+    hits = [i for i, l in enumerate(lines) if re.search(rx, l)]
+    if len(hits) != 1:
+        raise X.AnchorLost('frag anchor /%s/ matches %d lines in %s' % (rx, len(hits), o['fn']))
+    end = stmt_end_line(lines, hits[0])
+    frag = '\n'.join(lines[hits[0]:end + 1])
+    ctx = T.Ctx(o['name'], 'plain', None, fnmeta['callees'])
+    for pat, rep in f.substs:
+        frag, n = re.subn(pat, rep, frag, flags=re.S)
+        if n == 0:
+            raise X.AnchorLost('subst /%s/ does not match in fragment %s' % (pat, o['name']))
+        ctx.hit('subst', n)
+    sig = 'fn %s(%s) -> (r: %s)' % (o['name'], o.get('params', ''), o['ret'])
+    contract = '\n'.join(f.contract)
+    full = sig + '\n' + contract + '\n{\n' + frag + '\n    ' + o['result'] + '\n}\n'
+    meta = {
+        'function': o['name'], 'source_fn': o['fn'] + ' (fragment)', 'file': 'rarena-allocator/src/' + o['file'],
+        'scope': o.get('scope'), 'first_line': X.line_of(src, s), 'last_line': X.line_of(src, e - 1),
+        'sha256_16': X.sha(frag), 'profile': 'fragment', 'rules': ctx.counts,
+        'props': [p for p in o.get('props', '').split(',') if p], 'loops_without_invariant': [],
+        'translated_sha': X.sha(frag), 'contract_file': None,
+        'note': 'fragment: one statement of %s; the rest of that function is not under contract' % o['fn'],
+    }
+    return full, meta
+
+
 def make_twin(sig, contract, name):
     """Vacuity guard: a proof fn with the same parameters and `requires`, claiming `false`.
     Verus must REJECT it; if it verifies, the precondition is contradictory."""
@@ -222,7 +260,7 @@ def build_unit(tpl_text, sources):
     parts = parse_template(tpl_text)
     callees = {}
     for kind, p in parts:
-        if kind == 'fn' and p.opts.get('st'):
+        if kind == 'fn' and p.opts.get('st') and 'name' in p.opts:
             callees[p.opts['name']] = True
     fnmeta = {'callees': callees}
     out = []
